@@ -429,6 +429,13 @@ CLAIMED['C02']['text'] = CLAIMED['C02']['text'].replace(
     '(C02_exit_cli); that model of __main__ is hand-written and tied by the differential runs of the real CLI (three output modes x '
     'three strategies). The change marks of the rendered output are compared on the implementation only.')
 CLAIMED['C02']['note'] = CLAIMED['C02']['note'].replace(' CLI exit status / marks: implementation runs only.', ' CLI marks: implementation runs only; the model of the exit flag is hand-written.')
+
+CLAIMED['C14']['text'] = CLAIMED['C14']['text'] + (
+    ' A real-process stream runs the command with status output enabled, with --no-status and with --quiet on documents whose diff '
+    'contains line-boundary-like characters: standard output and exit status must not depend on the status option.')
+CLAIMED['C04']['text'] = CLAIMED['C04']['text'] + (
+    ' Searches and PossibleEdits with explicit, correct initial bounds over constant candidates (an API parameter no caller inside '
+    'the library passes) are a trace-judged stream.')
 NOT_YET = 'model and theorem not completed yet (DESIGN.md section 7)'
 NA = {}
 
